@@ -77,7 +77,7 @@ var (
 			return r == lexer.ReturnRule
 		},
 		"IsElided": func(r lexer.Rule) bool {
-			return len(r.Name) > 0 && unicode.IsLower(rune(r.Name[0]))
+			return len(r.Name) > 0 && unicode.IsLower([]rune(r.Name)[0])
 		},
 		"OrderRules": orderRules,
 		"Ident":      identifier,
